@@ -117,19 +117,19 @@ PROPS = {
             "obs": None, "special": special_c16, "note": "Partial by nature: the Go scheduler and memory model are not modelled; races and leaks are searched by execution (-race), not proved absent."},
     "C09": {"claim": "Model of scaledbarcode.go (Scale, ScaleWithFill, both scalers, the wrapper's accessors) with the theorem that the result is the integer, centred enlargement or an error; tied by correspondence on exhaustive (width, height) windows of small sources of every family, chains, fills; judged pixel by pixel by the property's own formula.",
             "obs": None, "aux": scale_inner, "exhaustive_note": "every (w, h) in [1, 3*size+3]^2 for the small 1-D sources and small matrix symbols whose window fits the budget"},
-    "C10": {"modules": ["QrA", "PdfA", "C05", "C06", "C07", "C08"], "claim": "Acceptance stated per entry point as `accepted iff representable` (alphabet, length, parity, check digit, capacity from the ISO tables); models tied by correspondence on every single byte / boundary rune / boundary length / parameter sweep; no call may panic, hang or return an inconsistent pair. For Aztec and PDF417 capacity the oracle decides only one direction (content that certainly fits must be accepted).",
+    "C10": {"modules": ["QrA", "PdfA", "DmA", "C05", "C06", "C07", "C08"], "claim": "Acceptance stated per entry point as `accepted iff representable` (alphabet, length, parity, check digit, capacity from the ISO tables); models tied by correspondence on every single byte / boundary rune / boundary length / parameter sweep; no call may panic, hang or return an inconsistent pair. For Aztec and PDF417 capacity the oracle decides only one direction (content that certainly fits must be accepted).",
             "obs": ["ok", "rej"], "exhaustive_note": "every single byte value and 15 boundary runes as one-character content for every entry point; level bytes 0..255; layer requests -40..40"},
     "C11": {"claim": "Rendering contract per family: bounds, exactly the two scheme colours, scheme and model reported, pattern independent of the scheme, metadata, content rule; models tied by correspondence over schemes in Gray, Gray16, RGBA, NRGBA, CMYK, RGBA64 with equal and mixed-type colours.",
             "obs": None, "aux": plain_op},
-    "C12": {"modules": ["QrA", "PdfA"], "claim": "Declared and carried error-correction strength: QR level in the format information and ISO block structure, PDF417 level in both indicators and 2^(level+1) valid check words, DataMatrix ECC 200 counts, Aztec check bits vs. requested percentage; read back from the implementation's pixels by the reference decoders.",
+    "C12": {"modules": ["QrA", "PdfA", "DmA"], "claim": "Declared and carried error-correction strength: QR level in the format information and ISO block structure, PDF417 level in both indicators and 2^(level+1) valid check words, DataMatrix ECC 200 counts, Aztec check bits vs. requested percentage; read back from the implementation's pixels by the reference decoders.",
             "obs": None},
-    "C13": {"modules": ["QrA", "PdfA"], "claim": "Minimality: QR version against the ISO capacity of the densest single mode, DataMatrix size against the ASCII encodation length, PDF417 padding below one row within the limits, Aztec by requesting every physically smaller symbol explicitly.",
+    "C13": {"modules": ["QrA", "PdfA", "DmA"], "claim": "Minimality: QR version against the ISO capacity of the densest single mode, DataMatrix size against the ASCII encodation length, PDF417 padding below one row within the limits, Aztec by requesting every physically smaller symbol explicitly.",
             "obs": ["w", "h", "auto", "smaller_ok"]},
     "C14": {"modules": ["C05", "C06", "C07"], "claim": "CheckSum() against the check value decoded from the drawn symbol (EAN last digit = GS1 check, Code 128 check character, Code 39 modulo-43 value) and its invariance under 0-3 rounds of Scale.",
             "obs": ["cs"], "aux": base_op},
     "C01": {"modules": ["QrA", "QrB"], "claim": "Model of the qr package (four mode encoders incl. Atoi semantics, version search, padding, block split/interleave + RS, all eight masked renderings with the four penalty rules and the argmin, format/version information, alignment geometry in exact arithmetic) tied by correspondence on every version x level x mode capacity boundary; judged by a reference decoder written from ISO/IEC 18004 (BCH by generator polynomial, Annex E centres, function-module map, zig-zag read, ISO block table, RS validity by evaluation, segment parse, terminator and pad rules).",
             "obs": None, "exhaustive_note": "quick: capacity-1/capacity/capacity+1 for every (level, mode) of versions 1-10 and a rotating pair for 11-40; thorough: all 160 x 3 x 3 boundary cases"},
-    "C02": {"claim": "Model of the datamatrix package (encodation, padding, size choice, block interleave + RS, placement with both wrap rules, corner cases and panics, region merge) tied by correspondence on every size and capacity boundary; judged by a reference decoder written from ISO/IEC 16022 (attribute table, finder/clock tracks, Annex F placement pseudo-code, RS validity by evaluation, ASCII decodation with 253-state pads).",
+    "C02": {"modules": ["DmA", "C17"], "claim": "Model of the datamatrix package (encodation, padding, size choice, block interleave + RS, placement with both wrap rules, corner cases and panics, region merge) tied by correspondence on every size and capacity boundary; judged by a reference decoder written from ISO/IEC 16022 (attribute table, finder/clock tracks, Annex F placement pseudo-code, RS validity by evaluation, ASCII decodation with 253-state pads).",
             "obs": None, "exhaustive_note": "all 24 sizes at capacity-1/capacity/capacity+1 in several content classes"},
     "C03": {"claim": "Model of the aztec package (high-level encoder with its state search, token lists, bit stuffing, layer choice, mode message, check words over five fields, data spiral, bullseye, reference grid) tied by correspondence over all 36 shapes, all 37 layer requests, percentages and capacity boundaries; judged by a reference decoder written from ISO/IEC 24778 (bullseye/orientation, mode message RS over GF(16), reference grid, domino spiral read, RS validity by evaluation, un-stuffing, character stream incl. binary shift). The empty payload is an open known finding.",
             "obs": None, "exhaustive_note": "all 36 symbol shapes and all 37 layer requests; capacity-1/capacity/capacity+1 for every (percentage, layers) group"},
